@@ -117,7 +117,7 @@ def main(tier):
              "after every step: exit codes, executed scripts, file contents at every step and the final canonical database "
              "key must be identical to the run without queries",
         assumptions=["-j1, REDO_LOG=0", "flat worlds", "'known files' = names with a Files row in the implementation's database"],
-        budget_s=50 if tier == "quick" else 3000)
+        budget_s=900 if tier == "quick" else 6000)
 
 
 def replay(path):
